@@ -22,7 +22,17 @@ template <typename M> static void pm2(const M &m) { p2(m.vx); p2(m.vy); }
 template <typename M> static void pm3(const M &m) { p3(m.vx); p3(m.vy); p3(m.vz); }
 template <typename A> static void pa3(const A &a) { pm3(a.l); p3(a.p); }
 template <typename A> static void pa2(const A &a) { pm2(a.l); p2(a.p); }
+static void pb(bool b) { out.push_back(b ? 1.0 : 0.0); }
 template <typename Q> static void pq(const Q &q) { out.push_back(q.r); out.push_back(q.i); out.push_back(q.j); out.push_back(q.k); }
+
+static void pnums(const std::string &txt)
+{ // every number that appears in an operator<< output, in order
+  const char *p = txt.c_str();
+  while (*p) {
+    if ((*p >= '0' && *p <= '9') || ((*p == '-' || *p == '+') && p[1] >= '0' && p[1] <= '9')) { char *e; out.push_back(strtod(p, &e)); p = e; }
+    else ++p;
+  }
+}
 
 struct In {
   std::vector<double> v; size_t k = 0;
@@ -69,6 +79,25 @@ struct Lin3 {
       pa3(ar); p3(xfmPoint(ar, p));
       return true;
     }
+    if (kind == "ol3") {
+      L a = m3(in), b = m3(in);
+      pm3(+a); pm3(a / b);
+      { L c = a; L &r = (c *= b); pm3(c); pm3(r); }
+      { L c = a; L &r = (c /= b); pm3(c); pm3(r); }
+      pb(a == b); pb(a != b); pb(a == a); pb(a != a);
+      pm3(L(zero)); pm3(L(one)); pm3(clamp(a));
+      return true;
+    }
+    if (kind == "oa3") {
+      A a = a3(in), b = a3(in); T s = T(in.n());
+      pa3(-a); pa3(+a); pa3(a + b); pa3(a - b); pa3(s * a); pa3(a / b);
+      { A c = a; A &r = (c *= b); pa3(c); pa3(r); }
+      { A c = a; A &r = (c /= b); pa3(c); pa3(r); }
+      { A c(zero); A &r = (c = a); pa3(c); pa3(r); }
+      pb(a == b); pb(a != b); pb(a == a); pb(a != a);
+      pa3(A(zero)); pa3(A(one)); pa3(A(a.l.vx, a.l.vy, a.l.vz, a.p));
+      return true;
+    }
     if (kind == "frm") {
       V3 n = v3(in), up = v3(in);
       pm3(frame(n)); pm3(frame(n, up));
@@ -89,6 +118,9 @@ struct Quat {
   typedef vec_t<T, 3> V;
   static Q q4(In &in) { T r = T(in.n()), i = T(in.n()), j = T(in.n()), k = T(in.n()); return Q(r, i, j, k); }
   static V v3(In &in) { T x = T(in.n()), y = T(in.n()), z = T(in.n()); return V(x, y, z); }
+  // mixed scalar type: only QuaternionT<double> with a float scalar is well-formed
+  static void mixed(const QuaternionT<double> &a, double s) { float f = float(s); pq(a * f); pq(f * a); }
+  static void mixed(const QuaternionT<float> &, float) {}
   static bool run(const std::string &kind, In &in)
   {
     if (kind == "q") {
@@ -108,6 +140,23 @@ struct Quat {
     if (kind == "qr") {
       V u = v3(in); T r = T(in.n()); V v = v3(in);
       Q q = Q::rotate(u, r); pq(q); p3(q * v);
+      return true;
+    }
+    if (kind == "oq") {
+      Q a = q4(in), b = q4(in); T s = T(in.n()); V v = v3(in);
+      pq(Q(s)); pq(Q(zero)); pq(Q(one));
+      { Q c = a; Q &r = (c += s); pq(c); pq(r); }
+      { Q c = a; Q &r = (c += b); pq(c); pq(r); }
+      { Q c = a; Q &r = (c -= s); pq(c); pq(r); }
+      { Q c = a; Q &r = (c -= b); pq(c); pq(r); }
+      { Q c = a; Q &r = (c *= s); pq(c); pq(r); }
+      { Q c = a; Q &r = (c *= b); pq(c); pq(r); }
+      { Q c = a; Q &r = (c /= s); pq(c); pq(r); }
+      { Q c = a; Q &r = (c /= b); pq(c); pq(r); }
+      pq(s + a); pq(a + s); pq(s - a); pq(a - s); pq(s / a); pq(a / s); pq(a / b); pq(+a);
+      pb(a == b); pb(a != b); pb(a == a); pb(a != a);
+      pq(xfmQuaternion(a, b)); p3(xfmNormal(a, v)); out.push_back(abs(a));
+      mixed(a, s);
       return true;
     }
     if (kind == "ypr") {
@@ -145,6 +194,53 @@ static bool run_l2(const std::string &kind, In &in)
     L a = m2(), b = m2(); vec2f v = v2();
     out.push_back(a.det()); pm2(a.adjoint()); pm2(a.inverse()); pm2(a.transposed()); p2(a.row0()); p2(a.row1());
     pm2(a * b); p2(a * v); pm2(L::scale(v));
+    return true;
+  }
+  if (kind == "ol2") {
+    L a = m2(), b = m2();
+    pm2(+a); pm2(a / b);
+    { L c = a; L &r = (c *= b); pm2(c); pm2(r); }
+    { L c = a; L &r = (c /= b); pm2(c); pm2(r); }
+    pb(a == b); pb(a != b); pb(a == a); pb(a != a);
+    pm2(L(zero)); pm2(L(one));
+    return true;
+  }
+  if (kind == "oa2") {
+    A a = a2(), b = a2();
+    { A c = a; A &r = (c *= b); pa2(c); pa2(r); }
+    return true;
+  }
+  if (kind == "ocv") {   // conversions, pointer views, comparisons against single-entry perturbations, printing (harness + oracle only)
+    typedef LinearSpace3<vec3f> L3; typedef AffineSpaceT<L3> A3; typedef LinearSpace3<vec3fa> L3a; typedef AffineSpaceT<L3a> A3a;
+    float e[12]; for (int i = 0; i < 12; i++) e[i] = float(in.n());
+    L3 l(vec3f(e[0], e[1], e[2]), vec3f(e[3], e[4], e[5]), vec3f(e[6], e[7], e[8]));
+    A3 a3v(l, vec3f(e[9], e[10], e[11]));
+    L3a padded(l); L3 back(padded); pm3(back);
+    A3a apad(L3a(l), vec3fa(e[9], e[10], e[11])); A3 aback(apad); pa3(aback);
+    LinearSpace2<vec2d> d2(vec2d(e[0], e[1]), vec2d(e[2], e[3])); L fd(d2); pm2(fd);
+    { A3 t = a3v; L3 *lp = t; pm3(*lp); const A3 ct = a3v; const L3 *clp = ct; pm3(*clp); }
+    int eqL3 = 0, neL3 = 0, eqA3 = 0, neA3 = 0, eqL2 = 0, neL2 = 0, eqQ = 0, neQ = 0;
+    for (int k = 0; k < 12; k++) {
+      float f[12]; for (int i = 0; i < 12; i++) f[i] = e[i]; f[k] += 1.0f;
+      L3 lk(vec3f(f[0], f[1], f[2]), vec3f(f[3], f[4], f[5]), vec3f(f[6], f[7], f[8]));
+      A3 ak(lk, vec3f(f[9], f[10], f[11]));
+      eqA3 += (a3v == ak); neA3 += (a3v != ak);
+      if (k < 9) { eqL3 += (l == lk); neL3 += (l != lk); }
+      if (k < 4) {
+        L x(vec2f(e[0], e[1]), vec2f(e[2], e[3])), y(vec2f(f[0], f[1]), vec2f(f[2], f[3]));
+        eqL2 += (x == y); neL2 += (x != y);
+        quaternionf p(e[0], e[1], e[2], e[3]), q(f[0], f[1], f[2], f[3]);
+        eqQ += (p == q); neQ += (p != q);
+      }
+    }
+    out.push_back(eqL3); out.push_back(neL3); out.push_back(eqA3); out.push_back(neA3);
+    out.push_back(eqL2); out.push_back(neL2); out.push_back(eqQ); out.push_back(neQ);
+    { std::stringstream ss; ss << a3v; pnums(ss.str()); }
+    { std::stringstream ss; ss << l; pnums(ss.str()); }
+    { std::stringstream ss; ss << L(vec2f(e[0], e[1]), vec2f(e[2], e[3])); pnums(ss.str()); }
+    { std::stringstream ss; ss << A(L(vec2f(e[0], e[1]), vec2f(e[2], e[3])), vec2f(e[4], e[5])); pnums(ss.str()); }
+    { std::stringstream ss; ss << quaternionf(e[0], e[1], e[2], e[3]); pnums(ss.str()); }
+    pa3(A3::rotate(quaternionf(e[0], e[1], e[2], e[3])));   // the (non-normalising) wrapper around LinearSpace3(q)
     return true;
   }
   if (kind == "r2") {
